@@ -2792,6 +2792,22 @@ func c02EnumMemberIdentifiers(ctx *Ctx, r *Report) {
 			n++
 			r.Check(has, "chains/enum-member-identifiers", ctx.FuncName(obj)+" configures the check", cl.Pos(), "the pass is given the function that names members in that language",
 				ctx.FuncName(obj)+" adds EnumMemberIdentifiers without Identifier: the pass checks nothing")
+			// Go declares the type of an enum and its constants side by side: the name of the enum is taken too
+			if strings.HasSuffix(p.PkgPath, "/golang") {
+				hasEnum := false
+				for _, el := range cl.Elts {
+					if kv, ok := el.(*ast.KeyValueExpr); ok {
+						if k, ok := kv.Key.(*ast.Ident); ok && k.Name == "EnumIdentifier" {
+							if id, ok := ast.Unparen(kv.Value).(*ast.Ident); !ok || id.Name != "nil" {
+								hasEnum = true
+							}
+						}
+					}
+				}
+				n++
+				r.Check(hasEnum, "chains/enum-member-identifiers", ctx.FuncName(obj)+" reserves the name of the enum", cl.Pos(), "the pass is given the function that names the enum's type",
+					ctx.FuncName(obj)+" does not tell EnumMemberIdentifiers how the enum itself is named: with `Op: enum [\"<\", \"eq\"]` PrefixEnumValues leaves the member \"<\" named Op — `const Op Op = \"<\"` next to `type Op string`, Op redeclared")
+			}
 			return true
 		})
 	})
@@ -2852,7 +2868,7 @@ func c02EnumMemberIdentifiers(ctx *Ctx, r *Report) {
 	r.Check(validity && distinct, "chains/enum-member-identifiers", "compiler.EnumMemberIdentifiers fails on invalid and on duplicate identifiers", token.NoPos, "both tests leave with an error",
 		fmt.Sprintf("EnumMemberIdentifiers no longer fails on an identifier that is not one (%v) or on an identifier given twice (%v)", validity, distinct))
 	r.Count("clauses of the enum member identifier check", n)
-	r.Floor("clauses of the enum member identifier check", 11)
+	r.Floor("clauses of the enum member identifier check", 12)
 }
 
 // c02JavaSerializerConditions: the Java classes are annotated `@JsonSerialize(using = XSerializer.class)` /
